@@ -27,6 +27,7 @@ type LeveldbDiskStorage struct {
 // Create a new table, destroying any existing table.
 func (f LeveldbDiskStorage) Create(tbl *btapb.Table) Rows {
 	f.SetTableMeta(tbl)
+	verifYield("disk.Create.metaWritten")
 	path := filepath.Join(f.Root, tbl.Name)
 	newFunc := func(nuke bool) *leveldb.DB {
 		return newDiskDb(path, nuke)
@@ -84,6 +85,7 @@ func (f LeveldbDiskStorage) Open(tbl *btapb.Table) Rows {
 // SetTableMeta persists metadata about a table.
 func (f LeveldbDiskStorage) SetTableMeta(tbl *btapb.Table) {
 	path := filepath.Join(f.Root, tbl.Name)
+	verifYield("disk.SetTableMeta.start")
 	if err := os.MkdirAll(path, 0777); err != nil {
 		f.errLog(err, "os.MkdirAll %q", path)
 	}
@@ -98,11 +100,13 @@ func (f LeveldbDiskStorage) SetTableMeta(tbl *btapb.Table) {
 		f.errLog(err, "ioutil.WriteFile %q", tmpPath)
 		return
 	}
+	verifYield("disk.SetTableMeta.tmpWritten")
 
 	if err := os.Rename(tmpPath, outPath); err != nil {
 		f.errLog(err, "os.Rename %q -> %q", tmpPath, outPath)
 		return
 	}
+	verifYield("disk.SetTableMeta.renamed")
 }
 
 func (f LeveldbDiskStorage) errLog(err error, format string, args ...interface{}) {
@@ -116,6 +120,7 @@ var _ Storage = LeveldbDiskStorage{}
 func newDiskDb(path string, nuke bool) *leveldb.DB {
 	if nuke {
 		_ = os.RemoveAll(path)
+		verifYield("disk.newDb.nuked")
 	}
 
 	db, err := leveldb.OpenFile(path, &opt.Options{
